@@ -2565,6 +2565,10 @@ func (self *LockDB) wakeUpWaitLocks(lockManager *LockManager, serverProtocol Ser
 		lockManager.glock.Lock()
 		waitLock := lockManager.GetWaitLock()
 		for waitLock != nil {
+			if lockManager.locked == 0 && waitLock.command.TimeoutFlag&protocol.TIMEOUT_FLAG_LOCK_WAIT_WHEN_UNLOCK != 0 {
+				lockManager.glock.Unlock()
+				return
+			}
 			if !self.doLock(lockManager, waitLock) {
 				lockManager.glock.Unlock()
 				return
